@@ -375,6 +375,27 @@ def expand_dict_splats(tree):
             if len(body) == 1 and isinstance(body[0], ast.Return) and isinstance(body[0].value, ast.Dict) and body[0].value.keys and \
                     all(isinstance(k, ast.Constant) and isinstance(k.value, str) and k.value.isidentifier() for k in body[0].value.keys):
                 helpers[st.name] = st
+    # the same through a private method of the calling class: `f(**self._opts())` with `def _opts(self): return {...}` (not overridden
+    # by another class of the module)
+    method_helpers = {}
+    overridden = {}
+    for cls in [n for n in ast.walk(tree) if isinstance(n, ast.ClassDef)]:
+        for st in cls.body:
+            if isinstance(st, ast.FunctionDef):
+                overridden[st.name] = overridden.get(st.name, 0) + 1
+    for cls in [n for n in ast.walk(tree) if isinstance(n, ast.ClassDef)]:
+        for st in cls.body:
+            if isinstance(st, ast.FunctionDef) and st.name.startswith("_") and not st.name.startswith("__") and not st.decorator_list \
+                    and len(st.args.args) == 1 and not st.args.vararg and not st.args.kwarg and not st.args.kwonlyargs and overridden.get(st.name) == 1:
+                body = _strip_doc(st.body)
+                if len(body) == 1 and isinstance(body[0], ast.Return) and isinstance(body[0].value, ast.Dict) and body[0].value.keys and \
+                        all(isinstance(k, ast.Constant) and isinstance(k.value, str) and k.value.isidentifier() for k in body[0].value.keys):
+                    for meth in cls.body:
+                        if isinstance(meth, ast.FunctionDef) and meth.args.args:
+                            for c_ in ast.walk(meth):
+                                if isinstance(c_, ast.Call):
+                                    method_helpers[id(c_)] = (cls, meth.args.args[0].arg)
+                    method_helpers[(id(cls), st.name)] = st
     changed = 0
     for call in [n for n in ast.walk(tree) if isinstance(n, ast.Call)]:
         new_kw = []
@@ -384,6 +405,12 @@ def expand_dict_splats(tree):
                 new_kw.append(kw)
                 continue
             d = kw.value
+            if isinstance(d, ast.Call) and isinstance(d.func, ast.Attribute) and isinstance(d.func.value, ast.Name) and not d.args and not d.keywords \
+                    and id(call) in method_helpers and d.func.value.id == method_helpers[id(call)][1] \
+                    and (id(method_helpers[id(call)][0]), d.func.attr) in method_helpers:
+                h = method_helpers[(id(method_helpers[id(call)][0]), d.func.attr)]
+                ret = copy.deepcopy(_strip_doc(h.body)[0].value)
+                d = Renamer({h.args.args[0].arg: ast.Name(id=d.func.value.id, ctx=ast.Load())}).visit(ret)
             if isinstance(d, ast.Call) and isinstance(d.func, ast.Name) and d.func.id in helpers and not d.keywords \
                     and all(is_pure_simple(a) for a in d.args):
                 h = helpers[d.func.id]
@@ -2536,6 +2563,9 @@ def canonicalise(trees, level, known_funcs=None):
         n_rec = destructure_record_results(tree)
         mt.changed += sink_flag_tests(tree)
         n_alias = eliminate_aliases(tree) if (n_inl or n_st or n_obj or n_mod or n_rec) else 0
+        if n_alias:
+            # a closure that was reachable only through an alias (`cb = obj.method` handed to an inlined callee) is now called by name
+            n_inl += inline_closures(tree, counter)
         if n_inl or n_obj or n_mod:
             forward_result_temporaries(tree)
             beta_reduce_lambda_temporaries(tree)
